@@ -1,6 +1,97 @@
-//! Fidelity gates (native only): things the solver build trusts, checked against the real thing.
+//! Fidelity gates (native only): what the solver build trusts, checked against the real thing.
+use crate::fixtures::{FixtureDatabase, FixtureScope};
+use crate::world::*;
+use std::path::{Path, PathBuf};
+
 pub fn run(name: &str) -> bool {
     match name {
+        "worlds" => worlds(),
         _ => { eprintln!("unknown gate {}", name); false }
     }
+}
+
+fn sample_worlds() -> Vec<(&'static str, World)> {
+    let mut v = Vec::new();
+    // every usage kind
+    let mut w = World::new(&[C0, U]);
+    w.def(C0, "fx1", 4);
+    let g = w.def(U, "g", 4); w.defs[g].deps = vec!["fx1"];
+    w.test(U, 8, &["fx1"]); w.tests[0].usefix = Some("fx1"); w.tests[0].indirect = Some("fx1");
+    w.pytestmark_u = Some("fx1"); w.with_text = true;
+    v.push(("usage kinds", w));
+    // scopes, autouse, deps, multiline, request
+    let mut w = World::new(&[C1, C0, U, S, M, T2, P, V]);
+    let a = w.def(C1, "f", 5); w.defs[a].deps = vec!["f", "g"]; w.defs[a].scope = FixtureScope::Module; w.defs[a].multiline = true;
+    let b = w.def(C1, "g", 12); w.defs[b].autouse = true; w.defs[b].scope = FixtureScope::Session;
+    let c = w.def(C0, "f", 4); w.defs[c].deps = vec!["request", "h"];
+    w.def(C0, "h", 9);
+    let d = w.def(U, "f", 4); w.defs[d].deps = vec!["f"];
+    w.def(U, "f", 7);
+    w.test(U, 20, &["f", "g", "h"]);
+    w.def(S, "f", 4); w.def(M, "f", 7); w.def(T2, "f", 4); w.test(T2, 9, &["f"]);
+    let e = w.def(P, "f", 4); w.defs[e].scope = FixtureScope::Package;
+    let f = w.def(V, "f", 4); w.defs[f].scope = FixtureScope::Class; w.defs[f].autouse = true;
+    w.with_text = true;
+    v.push(("all files, scopes, multiline", w));
+    for k in 0..3u8 {
+        let mut w = World::new(&[S, M, C1, C0, U]);
+        w.def(S, "f", 4); w.def(M, "f", 5); w.test(U, 5, &["f"]);
+        w.imp_c1 = Imp { on: true, kind: k };
+        v.push(("C1 imports M", w));
+        let mut w = World::new(&[M, C0, U]);
+        w.def(M, "f", 4); w.test(U, 5, &["f"]);
+        w.imp_c0 = Imp { on: true, kind: k };
+        v.push(("C0 imports a.m", w));
+    }
+    v
+}
+
+fn worlds() -> bool {
+    let mut ok = true;
+    for (label, w) in sample_worlds() {
+        if !w.layout_ok() { eprintln!("gate worlds: sample '{}' violates layout_ok", label); ok = false; continue; }
+        let d = build_direct(&w, FULL, None);
+        let n = build_native(&w);
+        // definitions: same keys, same vectors (all fields, registration order)
+        for e in n.definitions.iter() {
+            let dv = d.definitions.get(e.key()).map(|x| x.value().clone());
+            if dv.as_ref() != Some(e.value()) { eprintln!("gate worlds [{}]: definitions[{}] differ", label, e.key());
+                if let Some(dv) = &dv { for (a, b) in dv.iter().zip(e.value().iter()) { if a != b { eprintln!("  direct {:?}\n  native {:?}", a, b); } } } ok = false; }
+        }
+        if d.definitions.len() != n.definitions.len() { eprintln!("gate worlds [{}]: #names differ", label); ok = false; }
+        let fmt_u = |u: &crate::fixtures::FixtureUsage| (u.name.clone(), u.file_path.clone(), u.line, u.start_char, u.end_char);
+        for e in n.usages.iter() {
+            let nv: Vec<_> = e.value().iter().map(fmt_u).collect();
+            let dv: Option<Vec<_>> = d.usages.get(e.key()).map(|x| x.value().iter().map(fmt_u).collect());
+            if dv.as_ref() != Some(&nv) { eprintln!("gate worlds [{}]: usages[{:?}] differ:\n direct {:?}\n native {:?}", label, e.key(), dv, nv); ok = false; }
+        }
+        if d.usages.len() != n.usages.len() { eprintln!("gate worlds [{}]: #usage files differ {} vs {}", label, d.usages.len(), n.usages.len()); ok = false; }
+        for e in n.usage_by_fixture.iter() {
+            let nv: Vec<_> = e.value().iter().map(|(p, u)| (p.clone(), fmt_u(u))).collect();
+            let dv: Option<Vec<_>> = d.usage_by_fixture.get(e.key()).map(|x| x.value().iter().map(|(p, u)| (p.clone(), fmt_u(u))).collect());
+            if dv.as_ref() != Some(&nv) { eprintln!("gate worlds [{}]: usage_by_fixture[{}] differ:\n direct {:?}\n native {:?}", label, e.key(), dv, nv); ok = false; }
+        }
+        if d.usage_by_fixture.len() != n.usage_by_fixture.len() { eprintln!("gate worlds [{}]: #usage_by_fixture keys differ", label); ok = false; }
+        for e in n.file_definitions.iter() {
+            let dv = d.file_definitions.get(e.key()).map(|x| x.value().clone());
+            if dv.as_ref() != Some(e.value()) { eprintln!("gate worlds [{}]: file_definitions[{:?}] differ", label, e.key()); ok = false; }
+        }
+        if d.file_definitions.len() != n.file_definitions.len() { eprintln!("gate worlds [{}]: #file_definitions differ", label); ok = false; }
+        for e in n.file_cache.iter() {
+            match d.file_cache.get(e.key()) {
+                None => { eprintln!("gate worlds [{}]: file_cache lacks {:?}", label, e.key()); ok = false; }
+                Some(t) => if w.with_text && t.value() != e.value() { eprintln!("gate worlds [{}]: text differs for {:?}", label, e.key()); ok = false; }
+            }
+        }
+        if d.file_cache.len() != n.file_cache.len() { eprintln!("gate worlds [{}]: #file_cache differ", label); ok = false; }
+        // import oracle == real import walk
+        for (c, imp) in [(C1, w.imp_c1), (C0, w.imp_c0)] {
+            if !w.has_file(c) { continue; }
+            let real = n.is_fixture_imported_in_file("f", Path::new(path(c)));
+            let oracle = imp.on && w.defs.iter().any(|d| d.file == M && d.name == "f");
+            if real != oracle { eprintln!("gate worlds [{}]: import oracle {} != real {} for {}", label, oracle, real, path(c)); ok = false; }
+        }
+    }
+    if ok { println!("gate worlds: ok"); }
+    ok
 }
